@@ -192,9 +192,14 @@ type cluster struct {
 	litmus   bool
 	hbLong   bool
 	verySlow bool // the slow-clock server is slower still
-	pv2      bool // every server runs protocol version 2
-	track    bool // commit-tracking log stores with RestoreCommittedLogs
-	slowFSM  bool // some FSMs take a few virtual ms per Apply
+	batchCh  bool // buffered apply channel (BatchApplyCh)
+	autoSnap bool // automatic snapshots (short interval, low threshold)
+	trailing uint64
+	maxAE    int
+	noPV     map[int]bool // servers running with pre-vote disabled
+	pv2      bool         // every server runs protocol version 2
+	track    bool         // commit-tracking log stores with RestoreCommittedLogs
+	slowFSM  bool         // some FSMs take a few virtual ms per Apply
 	delayMs  int
 	dropPct  int
 	dupPct   int
@@ -270,6 +275,20 @@ func (c *cluster) conf(i int, n *cnode) *raft.Config {
 	conf.SnapshotThreshold = 1 << 30
 	conf.TrailingLogs = 3
 	conf.MaxAppendEntries = 4
+	if c.autoSnap {
+		conf.SnapshotInterval = 150 * time.Millisecond
+		conf.SnapshotThreshold = 4
+	}
+	if c.trailing != 0 {
+		conf.TrailingLogs = c.trailing - 1 // stored +1 so that 0 means "default"
+	}
+	if c.maxAE != 0 {
+		conf.MaxAppendEntries = c.maxAE
+	}
+	conf.BatchApplyCh = c.batchCh
+	if c.noPV[i] {
+		conf.PreVoteDisabled = true
+	}
 	conf.NotifyCh = n.notify
 	conf.ShutdownOnRemove = false
 	if c.pv2 {
@@ -518,6 +537,9 @@ func (c *cluster) sample() {
 		lo, _ := n.st.InmemStore.FirstIndex()
 		hi, _ := n.st.InmemStore.LastIndex()
 		own, ncfg, ncfgOwn := uint64(0), 0, 0
+		if hi > lo && hi-lo >= 400 {
+			lo = hi - 399 // only the last 400 entries are examined: report that as the lowest index seen
+		}
 		for i := hi; i >= lo && i > 0 && hi-i < 400; i-- {
 			var l raft.Log
 			if n.st.InmemStore.GetLog(i, &l) != nil {
@@ -635,6 +657,19 @@ func runClusterCase(rng *rand.Rand, thorough bool, out *bufio.Writer, st *stats,
 	idIsAddr = c.pv2
 	defer func() { idIsAddr = false }()
 	st.Hist[fmt.Sprintf("flavour pv2=%v commit-tracking=%v slow-fsm=%v", c.pv2, c.track, c.slowFSM)]++
+	c.batchCh = rng.Intn(3) == 0
+	c.autoSnap = rng.Intn(3) == 0
+	c.trailing = []uint64{0, 0, 1, 11}[rng.Intn(4)] // default 3, or 0, or 10
+	c.maxAE = []int{0, 0, 1, 64}[rng.Intn(4)]
+	c.noPV = map[int]bool{}
+	if rng.Intn(4) == 0 {
+		for i := 1; i <= nsrv; i++ {
+			if rng.Intn(2) == 0 {
+				c.noPV[i] = true
+			}
+		}
+	}
+	st.Hist[fmt.Sprintf("options batch-apply-ch=%v auto-snapshot=%v trailing=%d max-append=%d no-pre-vote=%d", c.batchCh, c.autoSnap, c.trailing, c.maxAE, len(c.noPV))]++
 	_, c.inj = raft.NewInmemTransportWithTimeout("inj", 80*time.Millisecond)
 	mono := rng.Intn(3) == 0
 	for i := 1; i <= nsrv; i++ {
@@ -647,6 +682,11 @@ func runClusterCase(rng *rand.Rand, thorough bool, out *bufio.Writer, st *stats,
 		cfg.Servers = append(cfg.Servers, raft.Server{Suffrage: raft.Voter, ID: sidOf(n.id), Address: n.addr})
 	}
 	h.rec("C %d %d", nsrv, b2i(mono))
+	for i := 1; i <= nsrv; i++ {
+		if c.noPV[i] {
+			h.rec("NOPV %d", i)
+		}
+	}
 	for _, n := range c.nodes[1:] {
 		c.startNodeP(n)
 	}
@@ -694,8 +734,24 @@ func runClusterCase(rng *rand.Rand, thorough bool, out *bufio.Writer, st *stats,
 			}
 		case x < 55:
 			if len(ups) > 0 {
-				c.apply(ups[rng.Intn(len(ups))], "v")
-				st.Hist["verify"]++
+				n := ups[rng.Intn(len(ups))]
+				switch rng.Intn(4) {
+				case 0:
+					c.callWith(n, "g", func(r *raft.Raft) error { return r.GetConfiguration().Error() })
+					st.Hist["get-configuration"]++
+				case 1:
+					// bootstrapping a cluster that has state must be refused - and must resolve
+					c.callWith(n, "g", func(r *raft.Raft) error {
+						if err := r.BootstrapCluster(cfg).Error(); err == nil {
+							return errors.New("bootstrap accepted on a server with state")
+						}
+						return nil
+					})
+					st.Hist["bootstrap-again"]++
+				default:
+					c.apply(n, "v")
+					st.Hist["verify"]++
+				}
 			}
 		case x < 63: // partition: cut a random directed or undirected pair / isolate a node
 			a, b := 1+rng.Intn(nsrv), 1+rng.Intn(nsrv)
